@@ -77,7 +77,11 @@ func NewExpander(template string, createVariableResolver VariableResolverCreator
 			if err != nil {
 				return Empty, fmt.Errorf("error creating resolver for $%s: %w", vname, err)
 			}
-			partProviders[i] = createVariableExpressionSolver(vprovider, vexprSubmatches)
+			vsolver, serr := createVariableExpressionSolver(vprovider, vexprSubmatches)
+			if serr != nil {
+				return Empty, fmt.Errorf("invalid variable expression '${%s}': %w", vexpr, serr)
+			}
+			partProviders[i] = vsolver
 		} else {
 			vname := p[1:]
 			vprovider, err := createVariableResolver(vname)
@@ -130,7 +134,7 @@ func newPartResolverForString(s string) PartProvider {
 	}
 }
 
-func createVariableExpressionSolver(variableResolver PartProvider, expressionSubmatches []string) PartProvider {
+func createVariableExpressionSolver(variableResolver PartProvider, expressionSubmatches []string) (PartProvider, error) {
 	paramStartStr := expressionSubmatches[capturedStartIndex]
 	paramEndStr := expressionSubmatches[capturedEndIndex]
 	var err error
@@ -139,13 +143,13 @@ func createVariableExpressionSolver(variableResolver PartProvider, expressionSub
 	if paramStartStr != "" {
 		paramStart, err = strconv.Atoi(paramStartStr)
 		if err != nil {
-			panic(err)
+			return nil, err
 		}
 	}
 	if paramEndStr != "" {
 		paramEnd, err = strconv.Atoi(paramEndStr)
 		if err != nil {
-			panic(err)
+			return nil, err
 		}
 	}
 	return func(source RecordType) string {
@@ -178,5 +182,5 @@ func createVariableExpressionSolver(variableResolver PartProvider, expressionSub
 			return v[start:end]
 		}
 		return ""
-	}
+	}, nil
 }
